@@ -573,6 +573,10 @@ def check(rep):
         rep.count('cosim_event', sc['event'])
         rep.count('cosim_abort', r['abort'])
         replay = {'kind': 'cosim', 'scenario': sc, 'seed': seed}
+        if sc['event'] == 'two-returns-two-threads' and 3 in r.get('results', {}):
+            # the model's answer for the same number of calls (Parked.takes): what was raised, in total
+            lines.append('c07.takes %d 312,313' % (2 * sc['ops'] + 3))
+            expect.append('raised=%s parked=[]' % list(r['results'][3][1]))
         for p in r['problems']:
             sig = 'C07/%s' % p[0]
             if p[0] == 'conn-close-wrong-error' and p[2][0] == 'connection-error' and not p[2][1]:
